@@ -198,29 +198,49 @@ pub fn check(c: &Case, cs: &mut CaseStats) -> Result<(), String> {
                 return Err("from_boundary_points(&[]) is not the empty sphere".into());
             }
         }
-        // extend
-        let s = Sphere::new(v3(f, 11, scale), scale * (0.1 + f[35].abs()));
+        // extend: a sphere of positive radius, a single point (radius exactly 0, as built by
+        // from_boundary_points(&[p]) and by Sphere::new(p, 0.)) and a two-point sphere
         let x = v3(f, 6, scale) * (0.2 + 2. * f[34].abs());
-        let e = s.clone().extend(x);
-        let tol = 1e-9 * (mag + s.radius);
-        if s.contains(x) {
-            if !(e.center == s.center && e.radius == s.radius) {
-                return Err("extend changed a sphere that already contains the point".into());
-            }
-            cs.count("extend_contained", 1);
-        } else {
+        let p1 = v3(f, 11, scale);
+        let subjects = [
+            ("sphere", Sphere::new(p1, scale * (0.1 + f[35].abs()))),
+            ("single-point sphere (from_boundary_points)", Sphere::from_boundary_points(&[p1])),
+            ("single-point sphere (new(p, 0))", Sphere::new(v3(f, 7, scale), 0.)),
+            ("two-point sphere", Sphere::from_boundary_points(&[p1, v3(f, 8, scale)])),
+        ];
+        for (what, s) in subjects {
+            let e = s.clone().extend(x);
+            let tol = 1e-9 * (mag + s.radius);
             let dist = x.distance(s.center);
-            if !((e.center.distance(x) - e.radius).abs() <= tol) {
-                return Err(format!("extend: the new point is not on the new sphere (distance {:e}, radius {:e})", e.center.distance(x), e.radius));
+            // "contains" by the definition of a closed ball (a single point contains itself only)
+            let inside = dist <= s.radius * (1. - 1e-9);
+            let outside = dist >= s.radius * (1. + 1e-9) && dist > 0.;
+            if inside {
+                if !(e.center == s.center && e.radius == s.radius) {
+                    return Err(format!("extend changed a {what} that already contains the point"));
+                }
+                cs.count("extend_contained", 1);
+            } else if outside {
+                if !((e.center.distance(x) - e.radius).abs() <= tol) {
+                    return Err(format!("extend of a {what}: the new point is not on the new sphere (distance {:e}, radius {:e})", e.center.distance(x), e.radius));
+                }
+                if !((e.radius - 0.5 * (s.radius + dist)).abs() <= tol) {
+                    return Err(format!("extend of a {what} (centre {:?}, radius {:e}) by {:?}: new radius {:e} != (r + |x - c|) / 2 = {:e} (not the smallest sphere containing both)", s.center, s.radius, x, e.radius, 0.5 * (s.radius + dist)));
+                }
+                // old sphere internally tangent: |c' - c| + r = r'
+                if !((e.center.distance(s.center) + s.radius - e.radius).abs() <= tol) {
+                    return Err(format!("extend of a {what}: the old sphere is not internally tangent to the new one ({:e} + {:e} vs {:e})", e.center.distance(s.center), s.radius, e.radius));
+                }
+                cs.count("extend_outside", 1);
+                if s.radius == 0. {
+                    cs.count("extend_single_point", 1);
+                }
             }
-            if !((e.radius - 0.5 * (s.radius + dist)).abs() <= tol) {
-                return Err(format!("extend: new radius {:e} != (r + |x - c|) / 2 = {:e} (not the smallest sphere containing both)", e.radius, 0.5 * (s.radius + dist)));
-            }
-            // old sphere internally tangent: |c' - c| + r = r'
-            if !((e.center.distance(s.center) + s.radius - e.radius).abs() <= tol) {
-                return Err(format!("extend: the old sphere is not internally tangent to the new one ({:e} + {:e} vs {:e})", e.center.distance(s.center), s.radius, e.radius));
-            }
-            cs.count("extend_outside", 1);
+        }
+        // a single point extended by itself stays that point
+        let sp = Sphere::from_boundary_points(&[p1]).extend(p1);
+        if !(sp.center == p1 && sp.radius == 0.) {
+            return Err(format!("extend of a single-point sphere by its own point gives centre {:?} radius {:e}", sp.center, sp.radius));
         }
     }
     if asym {
@@ -232,12 +252,12 @@ pub fn check(c: &Case, cs: &mut CaseStats) -> Result<(), String> {
 pub fn def() -> PropDef {
     PropDef {
         id: "C19",
-        rule: "cases: 36 random reals per case combined into planes (unit and non-unit normals, |det| of the unit normals >= 1e-3), points (tetrahedron volume / edge^3 >= 1e-4, triangle area / edge^2 >= 1e-3), spheres and extension points, magnitudes 1e-3 .. 1e6, coordinates deliberately asymmetric (offsets that make all components distinct and non-zero); oracle = the defining equations with tolerances scaled by magnitude and conditioning: intersection on all three planes; projections on the plane / on both planes, along the normal / perpendicular to the line, idempotent, symmetric; signed volume and area antisymmetric, sign per the documented counter-clockwise convention, magnitude equal to base x height / 3 and Heron; spheres through their points, three-point centre in the plane, two-point centre at the midpoint; extend: unchanged if contained, else new point on the sphere, radius (r + |x-c|)/2, old sphere internally tangent; from_boundary_points dispatches by length. non-trivial: all coordinates pairwise distinct and non-zero; distinct by case hash.",
+        rule: "cases: 36 random reals per case combined into planes (unit and non-unit normals, |det| of the unit normals >= 1e-3), points (tetrahedron volume / edge^3 >= 1e-4, triangle area / edge^2 >= 1e-3), spheres and extension points, magnitudes 1e-3 .. 1e6, coordinates deliberately asymmetric (offsets that make all components distinct and non-zero); oracle = the defining equations with tolerances scaled by magnitude and conditioning: intersection on all three planes; projections on the plane / on both planes, along the normal / perpendicular to the line, idempotent, symmetric; signed volume and area antisymmetric, sign per the documented counter-clockwise convention, magnitude equal to base x height / 3 and Heron; spheres through their points, three-point centre in the plane, two-point centre at the midpoint; extend (of a sphere of positive radius, of a single-point sphere of radius exactly 0 built either way, of a two-point sphere): unchanged if contained, else new point on the sphere, radius (r + |x-c|)/2, old sphere internally tangent; a single point extended by itself is unchanged; from_boundary_points dispatches by length. non-trivial: all coordinates pairwise distinct and non-zero; distinct by case hash.",
         strategy,
         check,
         cases: |t| t.pick(40_000, 5_000_000),
         profiles: &["release"],
-        required: &["intersect_planes", "project_onto_non_unit_normal", "project_onto_intersection", "signed_measures", "sphere3", "sphere4", "extend_outside", "extend_contained"],
+        required: &["intersect_planes", "project_onto_non_unit_normal", "project_onto_intersection", "signed_measures", "sphere3", "sphere4", "extend_outside", "extend_contained", "extend_single_point"],
         fixed: None,
         assumptions: &["non-degenerate arguments as quantified by the property (thresholds above)"],
     }
